@@ -94,7 +94,7 @@ func (e *Env) fieldWrites() []fieldWrite {
 
 func c12(e *Env) {
 	r := e.R
-	r.Explanation = "RacerD-style field-based inventory, judged by an explicit, reasoned table (instance-insensitivity is resolved by the table, not guessed): (R1) guarded: the audit-record cache of an IP (BaseIP.auditInfo) is read and written only with the IP lock held; delete/len/close on an in-port's RemotePorts/Chan hold the port's closeLock; slot-channel sends hold the slot mutex; (R2) constructor-confined: Task fields are stored only in NewTask (before the task is published on the feed channel); FileIP.path/doStream/SubStream are stored only in the IP's constructor, NewTask or - for SubStream - before the carrier's single send; (R3) wiring-confined: readiness flags, owning-process links, PortInfo, Process.PathFuncs/PortInfo and Workflow.procs/driver/sink are never written from the run phase (the call-graph closure of every go target and every Run implementation), initialisation of a freshly constructed object excepted; the BaseProcess port maps and OutPort.RemotePorts are owner-confined (touched in the run phase only by the owning process's own goroutine, e.g. lazily initialising accessors and Close) and are deliberately not in the table; (R4) ownership transfer: after a component sends an IP on an out-port it does not touch that IP's audit record again in the same iteration; (R5) received IPs are immutable: no process mutates the audit record / tags of an IP it received from an in-port (the same *FileIP is delivered to every consumer of a fanned-out port); (R6) no goroutine is started in the wiring phase (before Run), where the unlocked wiring accessors of the ports are still in use."
+	r.Explanation = "RacerD-style field-based inventory, judged by an explicit, reasoned table (instance-insensitivity is resolved by the table, not guessed): (R1) guarded: the audit-record cache of an IP (BaseIP.auditInfo) is read and written only with the IP lock held; delete/len/close on an in-port's RemotePorts/Chan hold the port's closeLock; slot-channel sends hold the slot mutex; (R2) constructor-confined: Task fields are stored only in NewTask (before the task is published on the feed channel); FileIP.path/doStream/SubStream are stored only in the IP's constructor, NewTask or - for SubStream - before the carrier's single send; (R3) wiring-confined: readiness flags, owning-process links, PortInfo, Process.PathFuncs/PortInfo and Workflow.procs/driver/sink are never written from the run phase (the call-graph closure of every go target and every Run implementation), initialisation of a freshly constructed object excepted; the BaseProcess port maps and OutPort.RemotePorts are owner-confined (touched in the run phase only by the owning process's own goroutine, e.g. lazily initialising accessors and Close) and are deliberately not in the table; (R4) ownership transfer: after a component sends an IP on an out-port it does not touch that IP's audit record again in the same iteration; (R5) received IPs are immutable: no process mutates the audit record / tags of an IP it received from an in-port (the same *FileIP is delivered to every consumer of a fanned-out port); (R6) no goroutine is started in the wiring phase (before Run), where the unlocked wiring accessors of the ports are still in use; (R7) package-level variables used by the run phase are not written there and are of a kind that is safe for concurrent use (loggers, compiled regular expressions, read-only tables)."
 	r.NotDecided = "races inside user-supplied functions and custom processes; anything the field-based abstraction cannot separate is resolved conservatively through the table. The Go race detector's happens-before is not modelled; this is a lockset/ownership discipline, i.e. sufficient-condition style for the listed fields only."
 	a := e.anchors()
 	if !a.ok() {
@@ -278,8 +278,8 @@ func c12(e *Env) {
 									only = false
 								}
 							}
-							if only && !run[w.fn] || only && al == "NewTask" {
-								ok = true
+							if only && (!run[w.fn] || al == "NewTask" || run[ctor]) {
+								ok = true // (a run-phase "constructor", e.g. a component's Run that builds the object, may be split into helpers)
 							}
 						}
 					}
@@ -333,6 +333,133 @@ func c12(e *Env) {
 		}
 	}
 	ob6.OK("-", fmt.Sprintf("%d go statements in the library examined", nGo))
+	// ---- R7 package-level state shared by all goroutines
+	e.c12Globals(run)
+}
+
+// concurrencySafeGlobal: types whose values may be used (not reassigned) by several goroutines at once - by
+// their documentation or because using them is a read. Anything else that the run phase touches is reported.
+func concurrencySafeGlobal(t types.Type) (bool, string) {
+	switch s := t.String(); s {
+	case "*log.Logger", "*regexp.Regexp", "*strings.Replacer", "*text/template.Template", "*html/template.Template",
+		"sync.Mutex", "sync.RWMutex", "sync.Once", "sync.WaitGroup", "sync.Pool", "sync.Map", "*sync.Mutex", "*sync.RWMutex", "*sync.Pool", "*sync.Map":
+		return true, s + " is documented as safe for concurrent use"
+	}
+	switch u := t.Underlying().(type) {
+	case *types.Basic:
+		return true, "a value that is only read"
+	case *types.Slice, *types.Array, *types.Map:
+		return true, "a table that is only read (writes are checked separately)"
+	case *types.Signature:
+		return true, "a function value that is only read"
+	case *types.Struct:
+		for i := 0; i < u.NumFields(); i++ {
+			if ok, _ := concurrencySafeGlobal(u.Field(i).Type()); !ok {
+				return false, ""
+			}
+		}
+		return true, "a struct of read-only values"
+	}
+	return false, ""
+}
+
+// c12Globals (R7): a package-level variable of the library that the run phase uses is shared by every process
+// and task goroutine without any lock: it must not be written there, and what is done with it must be safe for
+// concurrent use (e.g. one shared *rand.Rand is not).
+func (e *Env) c12Globals(run map[*ssa.Function]bool) {
+	r := e.R
+	p := e.P
+	type use struct {
+		write bool
+		where string
+	}
+	uses := map[*ssa.Global][]use{}
+	isLibGlobal := func(v ssa.Value) *ssa.Global {
+		g, ok := v.(*ssa.Global)
+		if !ok || g.Pkg == nil {
+			return nil
+		}
+		for _, lp := range core.LibPkgs[:2] {
+			if g.Pkg.Pkg.Path() == lp {
+				return g
+			}
+		}
+		return nil
+	}
+	var fns []*ssa.Function
+	for _, fn := range p.LibFuncs {
+		if run[fn] && fn.Name() != "init" {
+			fns = append(fns, fn)
+		}
+	}
+	for _, fn := range fns {
+		for _, b := range fn.Blocks {
+			for _, in := range b.Instrs {
+				// direct store, or store / update through an element or field address of the global
+				var target ssa.Value
+				switch x := in.(type) {
+				case *ssa.Store:
+					target = x.Addr
+				case *ssa.MapUpdate:
+					if u, ok := x.Map.(*ssa.UnOp); ok {
+						target = u.X
+					}
+				}
+				for target != nil {
+					if g := isLibGlobal(target); g != nil {
+						uses[g] = append(uses[g], use{true, e.where(in)})
+						break
+					}
+					switch a := target.(type) {
+					case *ssa.IndexAddr:
+						target = a.X
+					case *ssa.FieldAddr:
+						target = a.X
+					case *ssa.UnOp:
+						target = a.X
+					default:
+						target = nil
+					}
+				}
+				for _, op := range in.Operands(nil) {
+					if *op == nil {
+						continue
+					}
+					if g := isLibGlobal(*op); g != nil {
+						uses[g] = append(uses[g], use{false, e.where(in)})
+					}
+				}
+			}
+		}
+	}
+	var gs []*ssa.Global
+	for g := range uses {
+		gs = append(gs, g)
+	}
+	sort.Slice(gs, func(i, j int) bool { return gs[i].String() < gs[j].String() })
+	ob := r.Ob("R7", "package-state:run-phase", "package-level variables used by the run phase (shared by all process and task goroutines, no lock) are not written there and are of a kind that is safe for concurrent use")
+	for _, g := range gs {
+		t := g.Type().(*types.Pointer).Elem()
+		wr := ""
+		for _, u := range uses[g] {
+			if u.write {
+				wr = u.where
+			}
+		}
+		okT, why := concurrencySafeGlobal(t)
+		switch {
+		case wr != "":
+			ob.Fail(wr, "package-level variable "+g.Name()+" is written in the run phase, where every process and task goroutine may execute this code concurrently, without a lock")
+		case !okT:
+			ob.Fail(uses[g][0].where, "package-level variable "+g.Name()+" ("+t.String()+") is used by the run phase, i.e. concurrently by every process and task goroutine, and its type is not known to be safe for concurrent use (e.g. a shared *rand.Rand is not): guard it or keep it per call")
+		default:
+			ob.OK(uses[g][0].where, g.Name()+": "+why)
+		}
+	}
+	if len(gs) == 0 {
+		ob.OK("-", "the run phase uses no package-level variable")
+	}
+	r.Analysed["run_phase_globals"] = len(gs)
 }
 
 // freshBase: the address is a field of an object allocated in the same function (composite literal / new).
